@@ -514,10 +514,12 @@ func checkExclusive(c *Ctx, cs *h.Case) {
 
 // C13: token classification, literal readers, type exclusivity.
 func RunC13(c *Ctx) {
+	processed := 0
 	check := func(cs *h.Case) {
 		checkTokens(c, cs)
 		checkExclusive(c, cs)
-		if c.Rec.WantSample() && c.Rec.R.Cases%9001 == 1 {
+		processed++
+		if c.Rec.WantSample() && processed%9001 == 1 {
 			tt, p, err := rjson.NextTokenType(cs.Input)
 			c.Rec.Sample(map[string]interface{}{"input": h.Quote(cs.Input), "how": cs.Describe(), "NextTokenType": fmt.Sprintf("%v p=%d err=%s", tt, p, errStr(err))})
 		}
